@@ -23,6 +23,8 @@ type c20In struct {
 	Host  string `json:"host,omitempty"`  // structured forms: the host, without brackets
 	HasP  bool   `json:"hasp,omitempty"`  // structured forms: an explicit port is part of Addr
 	EPort string `json:"eport,omitempty"` // that port
+	// structured forms: Addr ends with a ':' that nothing follows ("host:", "[v6]:"): no port was given
+	EmptyP bool `json:"emptyp,omitempty"`
 }
 
 type c20 struct{}
@@ -33,7 +35,7 @@ func (c20) ID() string    { return "C20" }
 func (c20) RunFn() string { return "run_C20" }
 func (c20) Workers() int  { return 8 }
 func (c20) Rule() string {
-	return "structured addresses: DNS names (digit/hyphen labels, single label, trailing dot, xn--), IPv4, IPv6 (8 groups, :: at every position and run length, embedded and mapped IPv4, %zone, mixed case) bare or bracketed, x port absent/present, x ensurePort port argument in {5222,0,negative,large}; for every input also the SRV path of client.go (ensurePort(addr, port) handed to NewClientTransport, i.e. ensurePort applied twice: the second application must change nothing, and a portless form must be dialled at exactly the first port); one structured host in seven also as host: / [v6]: (empty port: model and code compared, nothing asserted); every port 0..65535 for one host per form (thorough; a sample in quick); all strings of length <= 4 (thorough: <= 5) plus random strings of length <= 8 over {a : [ ] . 1 w s / W S}; ws/wss URLs with the scheme in every letter case, hosts named ws/wss (any case) with ports; reconnections: the transport each constructor returns for host:port (localhost, 127.0.0.1, IPv4-mapped and non-canonical IPv6 literals, ::1 forms where the sandbox has an IPv6 loopback) is connected 2-4 times to a loopback listener, one attempt possibly cut by the server, and the address it is about to dial is read before EVERY Connect: it must name the given host and port each time (Coq C20_redial_keeps_host); addresses with white space at either end, and the property's own exception - a string that is not an IPv6 literal as a whole but an unbracketed IPv6 literal directly followed by :digits - are run (no panic) but compared as a constant (not an address form of the property); distinct = distinct (address, port argument); non-trivial = structured form, or a raw string containing ':' '[' or ']'"
+	return "structured addresses: DNS names (digit/hyphen labels, single label, trailing dot, xn--), IPv4, IPv6 (8 groups, :: at every position and run length, embedded and mapped IPv4, %zone, mixed case) bare or bracketed, x port absent/present, x ensurePort port argument in {5222,0,negative,large}; for every input also the SRV path of client.go (ensurePort(addr, port) handed to NewClientTransport, i.e. ensurePort applied twice: the second application must change nothing, and a portless form must be dialled at exactly the first port); every structured host also as host: / [v6]: (an empty port is no port: ensurePort, both transports, the SRV path and the checker must complete it like the address without the colon); every port 0..65535 for one host per form (thorough; a sample in quick); all strings of length <= 4 (thorough: <= 5) plus random strings of length <= 8 over {a : [ ] . 1 w s / W S}; ws/wss URLs with the scheme in every letter case, hosts named ws/wss (any case) with ports; reconnections: the transport each constructor returns for host:port (localhost, 127.0.0.1, IPv4-mapped and non-canonical IPv6 literals, ::1 forms where the sandbox has an IPv6 loopback) is connected 2-4 times to a loopback listener, one attempt possibly cut by the server, and the address it is about to dial is read before EVERY Connect: it must name the given host and port each time (Coq C20_redial_keeps_host); addresses with white space at either end, and the property's own exception - a string that is not an IPv6 literal as a whole but an unbracketed IPv6 literal directly followed by :digits - are run (no panic) but compared as a constant (not an address form of the property); distinct = distinct (address, port argument); non-trivial = structured form, or a raw string containing ':' '[' or ']'"
 }
 
 const c20Alphabet = "a:[].1ws/WS"
@@ -180,15 +182,12 @@ func c20EPort(r *rand.Rand) string {
 func c20Forms(out []interface{}, form, host string, parg int, eport string) []interface{} {
 	switch form {
 	case "name", "v4":
-		if len(out)%7 == 0 { // a separator with an empty port: model and code compared, nothing asserted (Props/C20.v C20_empty_port_not_defaulted)
-			out = append(out, c20In{Addr: host + ":", Port: parg, Form: "raw"})
-		}
+		// a ':' with nothing after it gives no port: the default is due (Props/C20.v C20_empty_port_is_no_port)
+		out = append(out, c20In{Addr: host + ":", Port: parg, Form: form, Host: host, EmptyP: true})
 		out = append(out, c20In{Addr: host, Port: parg, Form: form, Host: host})
 		out = append(out, c20In{Addr: host + ":" + eport, Port: parg, Form: form, Host: host, HasP: true, EPort: eport})
 	case "v6":
-		if len(out)%7 == 0 {
-			out = append(out, c20In{Addr: "[" + host + "]:", Port: parg, Form: "raw"})
-		}
+		out = append(out, c20In{Addr: "[" + host + "]:", Port: parg, Form: "v6b", Host: host, EmptyP: true})
 		out = append(out, c20In{Addr: host, Port: parg, Form: "v6", Host: host})
 		out = append(out, c20In{Addr: "[" + host + "]", Port: parg, Form: "v6b", Host: host})
 		out = append(out, c20In{Addr: "[" + host + "]:" + eport, Port: parg, Form: "v6b", Host: host, HasP: true, EPort: eport})
@@ -512,6 +511,9 @@ func (c20) Oracle(inp interface{}, obs Sx) (string, string) {
 		if in.HasP {
 			shape = "-" + in.Form + "-port"
 		}
+		if in.EmptyP {
+			shape = "-" + in.Form + "-emptyport"
+		}
 	}
 	if scheme {
 		if kind(client) != 1 || string(bytesOf(client.L[1])) != in.Addr {
@@ -641,6 +643,8 @@ func (c20) Key(inp interface{}) (string, bool) {
 	if in.Form != "raw" {
 		if in.HasP {
 			cls += "/port"
+		} else if in.EmptyP {
+			cls += "/emptyport"
 		} else {
 			cls += "/noport"
 		}
